@@ -114,6 +114,9 @@ def classify(b, diff, a, e):
     t = set(b["tags"])
     if b["dialect"] == "non-validating" and (b["mode"] == "toggle_as" or any(str(v).startswith("tb_k") for v in (b.get("mapping") or {}).values())):
         return "KF-30e"
+    # KF-36: the alias of the first relation of a parenthesised join group falls through to a table named after the alias - which the renaming renames
+    if "join.parenthesised_group_first_aliased" in t and diff == ["column_pairs"]:
+        return "KF-36"
     # KF-24: relations joined inside a derived table leak into the enclosing scope; an alias that equals the bare name of such a leaked
     # table then competes with it for the same key of the alias map
     if "join.derived_with_inner_join" in t and any(str(v).startswith("tb_k") for v in (b.get("mapping") or {}).values()) and diff == ["column_pairs"]:
